@@ -152,7 +152,7 @@ def uncertainty_tokenizer(input_string: str) -> Generator[TokenInfo, None, None]
                 line=possible_e_token.line,
             )
         elif (
-            possible_e_token.string[0] in ["e", "E"]
+            possible_e_token.string in ["e", "E"]
             and toklist.lookahead(e_index + 1).string in ["+", "-"]
             and toklist.lookahead(e_index + 2).type == tokenlib.NUMBER
         ):
